@@ -234,7 +234,7 @@ def stepSock (s : SockSt) (args : List String) : SockSt × String :=
           | .readyOk _ k inst =>
             -- the answer (a not yet started connection) is dropped with the future: its task state dies and its
             -- drop guard asks the dispatcher to forget the key
-            finish { s' with ctl := s'.ctl ++ [.shutdown k] } { d with deadStreams := d.deadStreams ++ [inst] } "ok" []
+            finish { s' with ctl := s'.ctl ++ [.shutdown k (some inst)] } { d with deadStreams := d.deadStreams ++ [inst] } "ok" []
           | _ => finish s' { d with deadAcc := d.deadAcc ++ [i] } "ok" []
         | none => (s, "bad-op")
       | ["inject", port, hx] =>
@@ -247,7 +247,7 @@ def stepSock (s : SockSt) (args : List String) : SockSt × String :=
         match nat? port, nat? id with
         | some port, some id =>
           if port ≥ 65536 ∨ id ≥ 65536 then (s, "bad-op") else
-          finish { s with ctl := s.ctl ++ [.shutdown { addr := port, id := id }] } d "ok" []
+          finish { s with ctl := s.ctl ++ [.shutdown { addr := port, id := id } none] } d "ok" []
         | _, _ => (s, "bad-op")
       | "run" :: rest => stepRun s d rest
       | ["fp"] => finish s d "ok" []
